@@ -950,6 +950,9 @@ impl Gen {
             } else if self.rng.chance(1, 6) && !self.structs.is_empty() {
                 let i = self.rng.below(self.structs.len());
                 self.struct_ty(i)
+            } else if self.rng.chance(1, 8) {
+                // functions without a result: `return ()`, also from nested blocks (seeded change C11-c)
+                Ty::Prim(PT::None)
             } else {
                 Ty::Prim(self.prim())
             };
